@@ -18,7 +18,7 @@ git -C $R status --short | grep -v '^ M' >> $L
 (cd $R/$MOD && go test -vet=off -count=1 ./$PKG/ ) >> $L 2>&1; own_rc=$?
 echo "SEED $ID/$M: demo clean rc=$clean_rc (want 0), build root=$b1 cli=$b2 (want 0), demo with patch rc=$mut_rc (want !=0), package tests with patch rc=$own_rc (want 0)"
 for c in "$@"; do
-  (cd /verif && VERIF_REPO=$R ./check $c --tier quick 2>&1 | grep -E "VIOLATION|KNOWN|class=|quick:|broken" | cut -c1-300)
+  (cd ${VERIFDIR:-/verif} && VERIF_REPO=$R ./check $c --tier quick 2>&1 | grep -E "VIOLATION|KNOWN|class=|quick:|broken" | cut -c1-300)
 done
 git -C $R checkout -q -- . && git -C $R clean -fdq && git -C $R checkout -q --detach $(git -C /repo rev-parse HEAD)
-git -C /verif checkout -- coq/theories/gen 2>/dev/null
+git -C ${VERIFDIR:-/verif} checkout -- coq/theories/gen 2>/dev/null
